@@ -220,3 +220,26 @@ void h_glue(void) {
   __CPROVER_assert(r0 == r1, "glue: the C02 pre-state predicate (running with Inv) is the same for all states the loop invariant relates");
   __CPROVER_assert(bytes_eq(s.config, s0.config) && bytes_eq(s.history, s0.history), "glue: configuration and history are outside the loop's frame");
 }
+
+/* Bounded stand-in for documents with nested histories (Inv is not the representation invariant there, see
+ * DESIGN.md C02): REACH_K real steps from the pristine context, every callback answer nondeterministic, at most
+ * one ignored event per step; after every step the configuration must be legal.  BOUNDED - never counted as proved. */
+#ifndef REACH_K
+#define REACH_K 7
+#endif
+int wit_reach_step;
+void h_reach(void) {
+  setup_ctx();
+  g_ctx.flags = USCXML_CTX_PRISTINE;
+  for (int k = 0; k < USCXML_MAX_NR_STATES_BYTES; k++) { g_ctx.config[k] = 0; g_ctx.history[k] = 0; g_ctx.invocations[k] = 0; g_ctx.initialized_data[k] = 0; }
+  g_ctx.event = 0;
+  for (int s = 0; s < REACH_K; s++) {
+    wit_reach_step = s;
+    int r = uscxml_step(&g_ctx);
+    if (r != USCXML_ERR_OK && r != USCXML_ERR_IDLE) break;
+    if (g_ctx.flags & (USCXML_CTX_FINISHED | USCXML_CTX_TOP_LEVEL_FINAL)) break;
+    for (int k = 0; k < USCXML_MAX_NR_STATES_BYTES; k++) { wit_post_config[k] = g_ctx.config[k]; wit_post_history[k] = g_ctx.history[k]; }
+    __CPROVER_assert(legal_config(g_ctx.config), "C02.reach: every configuration reached within REACH_K steps of initialisation is legal (3.11)");
+  }
+  __CPROVER_assert(0, "CANARY reach harness ends");
+}
